@@ -616,7 +616,12 @@ func RunC15(tier string, seed int64, race bool) int {
 		"a Run that has not returned 30 s after the peer closed is classified by goroutine state; repeated version/verack are hostile input here, not conformant traffic"}
 	self, _ := os.Executable()
 	dir, _ := os.MkdirTemp("", "c15-")
-	defer os.RemoveAll(dir)
+	if keep := os.Getenv("VERIF_C15_KEEP"); keep != "" { // debugging aid: keep journals and worker output
+		os.MkdirAll(keep, 0o755)
+		dir = keep
+	} else {
+		defer os.RemoveAll(dir)
+	}
 	batches, perBatch := 16, 60
 	if tier == "thorough" {
 		batches, perBatch = 160, 150
